@@ -1,9 +1,10 @@
 SPECIFICATION Spec
 CONSTANTS
-  Inputs = {1}
-  Biases = {}
-  Hidden = {4}
-  OutSet = {3}
+  Inputs = {1, 2}
+  Biases = {3, 4}
+  Hidden = {7, 8}
+  OutSet = {5, 6}
+  Shapes = {{1, 5, 7}}
   Weights <- W1
   TdFlags = {FALSE}
   InVals <- V2
